@@ -180,6 +180,27 @@ def parse_transition_tag(tag, D):
     return typ, ini, fin
 
 
+def require_all_fails_read(results):
+    """TLC wraps printed tuples longer than 80 characters over several lines, and tlc.TLCResult.prints only reads
+    one-line tuples: a FAIL that was printed but not read back must never pass silently."""
+    from . import tlc
+    for r in results:
+        printed = r.out.count('"FAIL"')
+        read = len(r.prints("FAIL"))
+        if printed != read:
+            raise tlc.TLCError("TLC printed %d FAIL tuples but %d were read back (a wrapped line?):\n%s" % (
+                printed, read, "\n".join(l for l in r.out.splitlines() if "FAIL" in l)[:2000]))
+
+
+def split_clause(cl):
+    """'name@t12f' -> (name, 't', 12, 'f');  'name@s3' -> (name, 's', 3, '');  'name' -> (name, '', 0, '')."""
+    name, _, where = cl.partition("@")
+    m = re.match(r"^([st])(\d+)([a-z]?)$", where)
+    if not m:
+        return name, "", 0, ""
+    return name, m.group(1), int(m.group(2)), m.group(3)
+
+
 def family(name):
     return name.split("-")[1] if name.startswith("rnd-") else name
 
